@@ -9,6 +9,7 @@
 // pattern that is re-verified after every free (a free that corrupts a neighbour shows up as
 // "corrupt:<slot>").  Canonical output only: no addresses, no capacities.
 #include "common.h"
+#include <new>
 #include <cstdint>
 #include <cstring>
 #include <algorithm>
@@ -340,15 +341,23 @@ int runTyped()
         // ---- aligned_allocator<T,64>
         if (op == "ms")
           return std::to_string(alloc.max_size());
-        if (op == "al" || op == "alh") {
+        if (op == "al" || op == "alh" || op == "alnh") {
           int k = K(1);
           size_t n = U(2);
           releaseSlot(k);
           T *p = nullptr;
           g_last_size = (size_t)-1;
+          // alnh: the same request while a std::new_handler that simply returns is installed (an application-level
+          // "free some caches and try again" hook): the outcome must be the same - a block or an exception, never null
+          struct HandlerGuard {
+            std::new_handler old;
+            bool on;
+            explicit HandlerGuard(bool o) : old(nullptr), on(o) { if (on) old = std::set_new_handler([]() {}); }
+            ~HandlerGuard() { if (on) std::set_new_handler(old); }
+          } hg(op == "alnh");
           try {
             Track t;
-            p = (op == "al") ? alloc.allocate(n) : alloc.allocate(n, (const int *)nullptr);
+            p = (op == "alh") ? alloc.allocate(n, (const int *)nullptr) : alloc.allocate(n);
           } catch (const std::length_error &) {
             return "length_error";
           } catch (const std::bad_alloc &) {
